@@ -52,7 +52,7 @@ pub fn source(seed: u8) -> Source {
 /// `f64::log2`, only reached from the sanity assertion `ceil(log2(bound)) < 64` of the noise
 /// kernels; the harnesses use bound = 19.2, log2(19.2) = 4.263...
 pub fn log2_stub(x: f64) -> f64 {
-    assert!(x == 19.2 || x > 0.0);
+    assert!(x >= 0.0);
     4.263034405833794
 }
 
